@@ -68,14 +68,10 @@ def gen_case(rng, maxn):
         case = {"kind": "ncube-pair", "dim": d, "name": rng.choice(T.DNAMES), "patches": ps, "conns": [], "byobj": False,
                 "geo": {"wellformed": True, "consistent": False}}
     else:
-        force = {}
-        if rng.random() < 0.08:
-            force["periodic"] = None
-        case = T.gen_grid(rng, maxn, force)
-        if rng.random() < 0.08:          # closed in every direction: no external boundary
+        case = T.gen_grid(rng, maxn)
+        if rng.random() < 0.08:          # closed in every direction: often no external boundary at all
             d = case["dim"]
             case = T.gen_grid(rng, maxn, {"dim": d, "periodic": [True] * d, "shape": T.gen_shape(rng, d, min(maxn, 4))})
-            full = all(True for _ in [0])
         if rng.random() < 0.6:
             for p in case["patches"]:
                 set_bounds(rng, p)
